@@ -195,6 +195,12 @@ func (s *mpSys) completeLists(u *model.MUpload) []mpOp {
 		}
 		add(mk(rev), " out-of-order")
 	}
+	// a part number listed twice is not an ascending list
+	add(mk([]int{ns[0], ns[0]}), " duplicate")
+	if len(ns) >= 2 {
+		add(mk([]int{ns[0], ns[0], ns[1]}), " duplicate")
+		add(mk([]int{ns[0], ns[1], ns[1]}), " duplicate")
+	}
 	for _, miss := range []int{0, -1, 3, 10001} {
 		if u.Parts[miss] != nil {
 			continue
@@ -539,7 +545,7 @@ func runMP(c *engine.Ctx, prop string) {
 func init() {
 	Registry["C06"] = func(c *engine.Ctx) {
 		c.Rule = "state = canonical snapshot (objects + pending uploads with their parts; upload ids replaced by rank); transition = initiate / upload-part / complete(part list: all, subsets, out-of-order, never-uploaded numbers 0/-1/3/10001, stale ETag, foreign ETag) / abort / plain put, checked against the A.4 model; in every new state GET per key, ListParts per open and closed upload, ListMultipartUploads; distinct_nontrivial = distinct canonical states"
-		c.Assumptions = append(c.Assumptions, "multipart ETag is required on the Complete result only", "empty part lists and duplicate part numbers are outside the statement and not generated")
+		c.Assumptions = append(c.Assumptions, "multipart ETag is required on the Complete result only", "empty part lists are outside the statement and not generated; a list naming a part number twice is not ascending and must be rejected")
 		runMP(c, "C06")
 		if c.Replay == nil {
 			bigComplete(c)
